@@ -51,6 +51,9 @@ type S struct {
 	dropAt    time.Duration // when the registry stopped listing dropped (registry mode)
 	dropped   string
 	refreshMs int
+	pushCB    bool
+	pushed    []string
+	pushSent  int
 	drop      func(host string)
 	finished  bool
 	plans     map[int32]string
@@ -142,6 +145,21 @@ func (s *S) Run(c *scen.Ctx) {
 	nprx := []int{1, 1, 2, 3}[simrt.Draw(4, "c08.proxies")]
 	for i := 0; i < nprx; i++ {
 		s.prxs = append(s.prxs, world.Proxy(comm, obj))
+	}
+	// a push callback that takes its time: push frames (id 0) are delivered to it, the calls
+	// pending on the connection meanwhile are not disturbed
+	if simrt.Draw(2, "c08.pushcb") == 1 {
+		slow := time.Duration(simrt.Draw(4, "c08.pushslow")) * 60 * time.Millisecond
+		for _, p := range s.prxs {
+			p.SetPushCallback(func(b []byte) {
+				s.mu.Lock()
+				s.pushed = append(s.pushed, string(b))
+				s.mu.Unlock()
+				simrt.Sleep(slow)
+			})
+		}
+		s.pushCB = true
+		c.Describe("push_callback_ms", int(slow/time.Millisecond))
 	}
 	c.Describe("proxy_objects", nprx)
 	c.Describe("registry", s.registry)
@@ -250,6 +268,9 @@ func (s *S) onRequest(c *scen.Ctx, sc *world.SrvConn, req *refcodec.Request) {
 		c.Count("fault.push_frame", 1)
 		push := &refcodec.Response{Version: 1, RequestID: 0, Buffer: []byte("pushed"), Status: map[string]string{}, ResultDesc: "hello"}
 		send(push, 0)
+		s.mu.Lock()
+		s.pushSent++
+		s.mu.Unlock()
 		send(rsp, 0)
 	case 10:
 		// the server announces a graceful stop (id 0, "_reconnect_") while this call and possibly
@@ -351,6 +372,17 @@ func (s *S) Check(c *scen.Ctx, res *simrt.Result) {
 		if cl.rspID != cl.wireID || !bytes.Equal(cl.rspBuf, cl.payload) {
 			c.Fail("C08", "wrong-response", "TarsInvoke", "call %d/%d sent id %d payload %q but received the response id %d payload %q (server plan %q)", cl.caller, cl.k, cl.wireID, cl.payload, cl.rspID, cl.rspBuf, s.plans[cl.wireID])
 		}
+	}
+	if s.pushCB && s.finished && res.Stalls == 0 && !(s.registry && s.dropped != "") {
+		if len(s.pushed) > s.pushSent {
+			c.Fail("C08", "push-duplicated", "onPush", "the peer sent %d push frames, the push callback ran %d times", s.pushSent, len(s.pushed))
+		}
+		for _, b := range s.pushed {
+			if b != "pushed" {
+				c.Fail("C08", "push-payload", "onPush", "the push callback received %q instead of the pushed payload", b)
+			}
+		}
+		c.Count("probe.push_frames_delivered_to_callback", len(s.pushed))
 	}
 	// no two concurrently outstanding calls share an id
 	for i, a := range s.calls {
